@@ -10,11 +10,12 @@
 (* A file may hold several executions; each starts with a "cfg" event      *)
 (* (all with the same constants, which are read from the first line).      *)
 (***************************************************************************)
-EXTENDS FFSM2, Json, IOUtils
+EXTENDS Monitors, Json, IOUtils
 
-VARIABLES st, l, rej, done
+VARIABLES st, l, rej, done,     \* conformance: specification state, next line, first mismatch, finished
+          tk, lm, bad           \* monitors: tracker, next line, findings <<property, line, why>> (first line per property)
 
-tvars == <<st, l, rej, done>>
+tvars == <<st, l, rej, done, tk, lm, bad>>
 
 TraceLog == ndJsonDeserialize(IOEnv.TRACE)
 Cfg == TraceLog[1]
@@ -35,7 +36,7 @@ TrDefMask == Cfg.def
 
 NoRej == [line |-> 0, why |-> "", fields |-> {}, exp |-> <<>>, got |-> <<>>]
 
-CbFields  == {"m", "s", "j", "pre", "sid", "cact", "mact", "mia", "ctx", "self", "ev", "req", "cur", "pend", "plan", "acts"}
+CbFields  == {"m", "s", "j", "pre", "sid", "cact", "mact", "mia", "ctx", "self", "ev", "req", "cur", "pend", "plan", "acts", "mact2"}
 RetFields == {"op", "r", "pre", "act", "ia", "on", "prev", "pne", "pfirst", "plast", "plan"}
 
 Diff(fields, o, e) == {f \in fields : o[f] # e[f]}
@@ -44,14 +45,14 @@ ToActs(seq) == [i \in 1 .. Len(seq) |-> [k |-> seq[i].k, a |-> seq[i].a, b |-> s
 
 Reject(why, fields, exp, got) ==
     /\ rej' = [line |-> l, why |-> why, fields |-> fields, exp |-> exp, got |-> got]
-    /\ UNCHANGED <<st, l, done>>
+    /\ UNCHANGED <<st, l, done, tk, lm, bad>>
 
-TInit == st = InitSt /\ l = 1 /\ rej = NoRej /\ done = FALSE
+TInit == st = InitSt /\ l = 1 /\ rej = NoRej /\ done = FALSE /\ tk = TkInit /\ lm = 1 /\ bad = {}
 
 Silent ==
     /\ AtInternal(st)
     /\ st' = Internal(st)
-    /\ UNCHANGED <<l, rej, done>>
+    /\ UNCHANGED <<l, rej, done, tk, lm, bad>>
 
 Consume ==
     /\ ~AtInternal(st)
@@ -59,7 +60,7 @@ Consume ==
     /\ LET e == TraceLog[l] IN
        CASE e.e = "cfg" ->
                 IF Idle(st) /\ ~st.alive
-                THEN st' = InitSt /\ l' = l + 1 /\ UNCHANGED <<rej, done>>
+                THEN st' = InitSt /\ l' = l + 1 /\ UNCHANGED <<rej, done, tk, lm, bad>>
                 ELSE Reject("execution ended inside a call or with a live instance", {}, <<>>, e)
          [] e.e = "call" ->
                 LET o == Op(e.op, e.a, e.b, e.p) IN
@@ -67,7 +68,7 @@ Consume ==
                                          (IF AtCallback(st) THEN "a callback" ELSE "the return of the running call"), {},
                                          IF AtCallback(st) THEN Head(st.k) ELSE st.call, e)
                 ELSE IF ~InContract(st, o) THEN Reject("call outside the contract in the specification's state", {}, <<>>, e)
-                ELSE st' = CallStep(st, o).st /\ l' = l + 1 /\ UNCHANGED <<rej, done>>
+                ELSE st' = CallStep(st, o).st /\ l' = l + 1 /\ UNCHANGED <<rej, done, tk, lm, bad>>
          [] e.e = "cb" ->
                 IF ~AtCallback(st)
                 THEN Reject("callback delivered where the specification expects " \o
@@ -81,7 +82,7 @@ Consume ==
                               ELSE LET res == CbStep(st, acts)
                                        d   == Diff(CbFields, res.out, e)
                                    IN  IF d # {} THEN Reject("callback view / results differ", d, res.out, e)
-                                       ELSE st' = res.st /\ l' = l + 1 /\ UNCHANGED <<rej, done>>
+                                       ELSE st' = res.st /\ l' = l + 1 /\ UNCHANGED <<rej, done, tk, lm, bad>>
          [] e.e = "ret" ->
                 IF ~AtReturn(st)
                 THEN Reject("call returned where the specification expects " \o
@@ -90,12 +91,24 @@ Consume ==
                 ELSE LET res == RetStep(st)
                          d   == Diff(RetFields, res.out, e)
                      IN  IF d # {} THEN Reject("observation at return differs", d, res.out, e)
-                         ELSE st' = res.st /\ l' = l + 1 /\ UNCHANGED <<rej, done>>
+                         ELSE st' = res.st /\ l' = l + 1 /\ UNCHANGED <<rej, done, tk, lm, bad>>
          [] OTHER -> Reject("unexpected event (crash / runaway / truncated trace)", {}, <<>>, e)
 
+ConfDone == rej # NoRej \/ (l > Len(TraceLog) /\ ~AtInternal(st))
+
+\* monitors run after conformance has finished, over the same lines
+MonStep ==
+    /\ ConfDone /\ lm <= Len(TraceLog)
+    /\ LET e   == TraceLog[lm]
+           tk2 == TkStep(tk, e)
+           f   == Checks(tk, e, tk2)
+       IN  /\ tk' = tk2
+           /\ lm' = lm + 1
+           /\ bad' = bad \cup {<<x[1], lm, x[2]>> : x \in {y \in f : ~\E b \in bad : b[1] = y[1]}}
+    /\ UNCHANGED <<st, l, rej, done>>
+
 Finish ==
-    /\ ~done
-    /\ rej # NoRej \/ (l > Len(TraceLog) /\ ~AtInternal(st))
+    /\ ~done /\ ConfDone /\ lm > Len(TraceLog)
     /\ done' = TRUE
     /\ IF rej # NoRej
        THEN PrintT(<<"TRACE-REJECTED", rej.line, rej.why, rej.fields, "EXPECTED", rej.exp, "GOT", rej.got>>)
@@ -103,9 +116,11 @@ Finish ==
             THEN PrintT(<<"TRACE-ACCEPTED", Len(TraceLog)>>)
             ELSE PrintT(<<"TRACE-REJECTED", l, "trace ends inside a call", {}, "EXPECTED",
                           IF AtCallback(st) THEN Head(st.k) ELSE st.call, "GOT", <<>>>>)
-    /\ UNCHANGED <<st, l, rej>>
+    /\ PrintT(<<"MONITOR-FINDINGS", bad>>)
+    /\ UNCHANGED <<st, l, rej, tk, lm, bad>>
 
-TNext == \/ (rej = NoRej /\ ~done /\ (Silent \/ Consume))
+TNext == \/ (~ConfDone /\ (Silent \/ Consume))
+         \/ MonStep
          \/ Finish
 
 TSpec == TInit /\ [][TNext]_tvars
